@@ -395,10 +395,12 @@ class Builder:
 
     def get_build_subgraph_callback(
         self, scope: Scope
-    ) -> Tuple[Callable, Set[Tuple[str, int]]]:
+    ) -> Tuple[Callable, Set[Tuple[str, int]], List["_function.Function"]]:
         """Create a callback for building subgraphs for ``Node.to_onnx``."""
 
         subgraph_opset_req = set()  # Keeps track of all opset imports in subgraphs
+        # Keeps track of all functions used in subgraphs
+        subgraph_functions: List[_function.Function] = []
 
         def build_subgraph(
             subgraph_of: Node, key: str, subgraph: "Graph"
@@ -411,9 +413,10 @@ class Builder:
                 self.compile_graph(subgraph, scope, subgraph_name + "__")
             )
             subgraph_opset_req |= subgraph._get_build_result().opset_req
+            subgraph_functions.extend(subgraph._get_build_result().functions)
             return subgraph.to_onnx()
 
-        return build_subgraph, subgraph_opset_req
+        return build_subgraph, subgraph_opset_req, subgraph_functions
 
     def compile_graph(
         self, graph: "Graph", scope: Scope, prefix: str = ""
@@ -452,7 +455,9 @@ class Builder:
             )  # Throws a ScopeError if we attempt to redeclare an argument
 
         # Build all nodes for this Graph. Also builds subgraph with a recursive call to compile_graph
-        build_subgraph, subgraph_opset_req = self.get_build_subgraph_callback(scope)
+        build_subgraph, subgraph_opset_req, subgraph_functions = (
+            self.get_build_subgraph_callback(scope)
+        )
         for node in self.scope_own[graph]:
             if isinstance(node, Argument):
                 continue
@@ -463,6 +468,7 @@ class Builder:
             # to_onnx throws ScopeErrors if it uses nodes that were not found to be in this scope (or outer)
             nodes[node] = tuple(node.to_onnx(scope, build_subgraph=build_subgraph))
         opset_req |= subgraph_opset_req
+        functions.extend(subgraph_functions)
 
         # Return results typed to what we want.
         # We use tuples here to avoid modifying this stuff by mistake down the line.
